@@ -1,17 +1,19 @@
 /-
-C07 (generator side) — "A function annotated `-> None` has no results; any other annotation yields
-one rendered result per result of the API, in order, each carrying the translated type; a function
-with neither annotation nor inferable return is emitted without results."
+C07 (generator side) — "A function annotated `-> None` has no results, an annotated tuple return yields
+one result per element in order, and any other annotation yields exactly one result carrying the
+translated type [per result of the API: one rendered result each, in order]; a function with neither
+annotation nor inferable return is emitted without results."
 
 Property theorems about `createResults` / `createResultString` (`_create_result_string`).
 Specification vocabulary: `Spec/Params.lean` (`ResultsRendered`, `resultListText`, `resultName`) and
-`Spec/Markers.lean` (`isNoneResult`, `resultsBeforeNone`); helper lemmas: `Proofs/Params.lean`.
+`Spec/Markers.lean` (`isNoneResult`, `onlyNoneResult`); helper lemmas: `Proofs/Params.lean`.
 
-The exact behaviour of the loop: results are visited from left to right; one without type is skipped;
-the first `None` result ends the loop with the empty string (whatever comes after it is never looked
-at, whatever came before it has been rendered for its side effects on the state only); otherwise a
-result whose type renders as `T ≠ ""` contributes `name: T`.  A failure of the type renderer on a
-visited result is a failure of the whole.
+The exact behaviour: a result list that consists of a single `None` result (`Spec.onlyNoneResult`) gives
+the empty string, nothing is rendered and no marker is added.  Otherwise the results are visited from
+left to right; one without type is skipped; a result whose type renders as `T ≠ ""` contributes
+`name: T` — a `None` result among several is a result like any other and is shown as `name: Nothing?`
+(it no longer hides the result list).  A failure of the type renderer on any result is a failure of the
+whole.  Zero rendered results: no arrow and the marker "result without type".
 -/
 import StubGen.Proofs.Params
 
@@ -19,92 +21,86 @@ namespace StubGen.C07
 
 open StubGen
 
-/-- (5) A `None` result suppresses all results — exact general form.  If some result is a `None`
-    result, `createResultString` succeeds exactly when the results before the first `None` result
-    render, the text is empty (no arrow, and no "result without type" marker either), and the final
-    state is the one reached after rendering that prefix. -/
-theorem none_result_suppresses (env : Env) (rs : List Result) (st st' : St) (text : String)
-    (hnone : rs.any Spec.isNoneResult = true) :
-    createResultString env rs st = .ok (text, st') ↔
-      text = "" ∧ ∃ texts, Spec.ResultsRendered (typeStr env) (Spec.resultName env.safe)
-        (Spec.resultsBeforeNone rs) st texts st' := by
-  rw [createResultString_eq, createResults_withNone env rs st hnone]
-  constructor
-  · intro h
-    cases hc : createResults env (Spec.resultsBeforeNone rs) st with
-    | error e => rw [hc] at h; cases h
-    | ok x =>
-      obtain ⟨o, s⟩ := x
-      obtain ⟨texts, _, hr⟩ := (createResults_noNone_iff env _ st s o (resultsBeforeNone_noNone rs)).1 hc
-      rw [hc] at h
-      cases h
-      exact ⟨rfl, texts, hr⟩
-  · rintro ⟨rfl, texts, hr⟩
-    rw [(createResults_noNone_iff env _ st st' _ (resultsBeforeNone_noNone rs)).2 ⟨texts, rfl, hr⟩]
+/-- the rendered name of a result, spelled out -/
+theorem result_name_eq (safe : Bool) (r : Result) :
+    Spec.resultName safe r = escapeKeyword (convertName r.name safe) := rfl
 
-/-- (5, as a decomposition) first `None` result wins: `pre ++ r :: post` with `r` the first `None`
-    result and `pre` rendering from `st` to `st'` gives the empty string in state `st'`; `post` is
-    irrelevant (it may even contain types the renderer rejects). -/
-theorem none_result_suppresses_split (env : Env) (pre post : List Result) (r : Result) (st st' : St)
-    (texts : List String)
-    (hr : Spec.isNoneResult r = true) (hpre : ∀ q ∈ pre, Spec.isNoneResult q = false)
-    (hrend : Spec.ResultsRendered (typeStr env) (Spec.resultName env.safe) pre st texts st') :
-    createResultString env (pre ++ r :: post) st = .ok ("", st') := by
-  have hany : (pre ++ r :: post).any Spec.isNoneResult = true := by simp [hr]
-  rw [none_result_suppresses env _ st st' "" hany, resultsBeforeNone_append pre post r hr hpre]
-  exact ⟨rfl, texts, hrend⟩
+/-- (5) `-> None`: a result list that is a single `None` result gives no results — no arrow, no marker
+    (in particular not "result without type"), the state is untouched, nothing is rendered, it never
+    fails. -/
+theorem only_none_no_results (env : Env) (rs : List Result) (st : St)
+    (h : Spec.onlyNoneResult rs = true) :
+    createResultString env rs st = .ok ("", st) := by
+  rw [createResultString_eq, if_pos h]
 
-/-- (5, failure) a renderer failure on a result before the first `None` result is a failure of the whole -/
-theorem none_result_prefix_error (env : Env) (rs : List Result) (st : St) (e : PyErr)
-    (hnone : rs.any Spec.isNoneResult = true)
-    (herr : createResults env (Spec.resultsBeforeNone rs) st = .error e) :
-    createResultString env rs st = .error e := by
-  rw [createResultString_eq, createResults_withNone env rs st hnone, herr]
-
-/-- (5, the property's case) `-> None`: the `None` result comes first (in particular: is the only
-    one); no results, state untouched, never fails. -/
-theorem none_annotation_no_results (env : Env) (r : Result) (post : List Result) (st : St)
+/-- (5, the property's case spelled out) the one result of `-> None` -/
+theorem none_annotation_no_results (env : Env) (r : Result) (st : St)
     (hr : Spec.isNoneResult r = true) :
-    createResultString env (r :: post) st = .ok ("", st) :=
-  none_result_suppresses_split env [] post r st st [] hr (by simp) (.nil st)
+    createResultString env [r] st = .ok ("", st) :=
+  only_none_no_results env [r] st hr
 
-/-- (6) Results in order — `createResults`.  Without a `None` result, `createResults` succeeds exactly
+/-- (5, exactly) "only a `None` result" is: one result, typed, the type a class with the qualified name
+    `builtins.None`; any other list — empty, several results, one result of another type — is not. -/
+theorem only_none_iff (rs : List Result) :
+    Spec.onlyNoneResult rs = true ↔ ∃ r n, rs = [r] ∧ r.type = some (.named n "builtins.None") := by
+  rw [pp_onlyNoneResult_iff]
+  constructor
+  · rintro ⟨r, t, h1, h2, h3⟩
+    obtain ⟨n, rfl⟩ := (pp_isNoneNamed_iff t).1 h3
+    exact ⟨r, n, h1, h2⟩
+  · rintro ⟨r, n, h1, h2⟩
+    exact ⟨r, _, h1, h2, (pp_isNoneNamed_iff _).2 ⟨n, rfl⟩⟩
+
+theorem several_not_only_none (rs : List Result) (h : rs.length ≠ 1) : Spec.onlyNoneResult rs = false :=
+  pp_onlyNoneResult_of_length h
+
+/-- (6) Results in order — `createResults`, for EVERY result list.  `createResults` succeeds exactly
     when the results render, and then returns, in order, `name: T` for exactly those results that
     have a type whose rendering `T` (by `typeStr`, in the state threaded from left to right) is
-    non-empty, with `name = escapeKeyword (convertName r.name env.safe)`. -/
-theorem results_in_order (env : Env) (rs : List Result) (st st' : St) (o : Option (List String))
-    (hn : ∀ r ∈ rs, Spec.isNoneResult r = false) :
-    createResults env rs st = .ok (o, st') ↔
-      ∃ texts, o = some texts ∧
-        Spec.ResultsRendered (typeStr env) (fun r => escapeKeyword (convertName r.name env.safe)) rs st texts st' :=
-  createResults_noNone_iff env rs st st' o hn
+    non-empty, with `name = escapeKeyword (convertName r.name env.safe)` (`result_name_eq`). -/
+theorem results_in_order (env : Env) (rs : List Result) (st st' : St) (texts : List String) :
+    createResults env rs st = .ok (texts, st') ↔
+      Spec.ResultsRendered (typeStr env) (Spec.resultName env.safe) rs st texts st' :=
+  pp_createResults_iff env rs st st' texts
 
-/-- (6) Results in order — `createResultString`: the rendered results after ` -> `, parenthesised if
-    there are several; nothing (and the pending marker "result without type") if there are none. -/
+/-- (6) Results in order — `createResultString`: unless the list is a single `None` result, the
+    rendered results after ` -> `, parenthesised if there are several; nothing (and the pending marker
+    "result without type") if there are none. -/
 theorem result_string_form (env : Env) (rs : List Result) (st st'' : St) (text : String)
-    (hn : ∀ r ∈ rs, Spec.isNoneResult r = false) :
+    (hn : Spec.onlyNoneResult rs = false) :
     createResultString env rs st = .ok (text, st'') ↔
       ∃ texts st', Spec.ResultsRendered (typeStr env) (Spec.resultName env.safe) rs st texts st' ∧
         text = Spec.resultListText texts ∧
         st'' = (if texts.isEmpty then { st' with todos := insertSet "result without type" st'.todos } else st') := by
-  rw [createResultString_eq]
+  rw [createResultString_eq, hn]
+  simp only [Bool.false_eq_true, if_false]
   constructor
   · intro h
     cases hc : createResults env rs st with
     | error e => rw [hc] at h; cases h
     | ok x =>
-      obtain ⟨o, s⟩ := x
-      obtain ⟨texts, rfl, hr⟩ := (createResults_noNone_iff env rs st s o hn).1 hc
+      obtain ⟨texts, s⟩ := x
+      have hr := (pp_createResults_iff env rs st s texts).1 hc
       rw [hc] at h
       cases h
       exact ⟨texts, s, hr, rfl, rfl⟩
   · rintro ⟨texts, st', hr, rfl, rfl⟩
-    rw [(createResults_noNone_iff env rs st st' _ hn).2 ⟨texts, rfl, hr⟩]
+    rw [(pp_createResults_iff env rs st st' texts).2 hr]
     rfl
+
+/-- (6, failure) … and it fails exactly when rendering the results fails, with the same error -/
+theorem result_string_error (env : Env) (rs : List Result) (st : St) (e : PyErr)
+    (hn : Spec.onlyNoneResult rs = false) :
+    createResultString env rs st = .error e ↔ createResults env rs st = .error e := by
+  rw [createResultString_eq, hn]
+  simp only [Bool.false_eq_true, if_false]
+  cases createResults env rs st with
+  | error e' => simp
+  | ok x => simp
 
 /-- (6, the three shapes spelled out) -/
 theorem result_string_cases (env : Env) (rs : List Result) (st st' : St) (texts : List String)
-    (hn : ∀ r ∈ rs, Spec.isNoneResult r = false)
+    (hn : Spec.onlyNoneResult rs = false)
     (hr : Spec.ResultsRendered (typeStr env) (Spec.resultName env.safe) rs st texts st') :
     (texts = [] → createResultString env rs st
         = .ok ("", { st' with todos := insertSet "result without type" st'.todos })) ∧
@@ -131,7 +127,8 @@ theorem results_count_eq (env : Env) (rs : List Result) (st st' : St) (texts : L
     texts.length = rs.length :=
   resultsRendered_length_eq hr hall
 
-/-- the hypothesis of `results_count_eq` holds for every class / builtin type -/
+/-- the hypothesis of `results_count_eq` holds for every class / builtin type (a class name is shown
+    keyword-escaped, which never makes it empty) — in particular for the type of a `None` result -/
 theorem named_never_empty (env : Env) (n q : String) :
     ∀ s tx s', typeStr env (.named n q) s = .ok (tx, s') → tx ≠ "" :=
   fun s tx s' h => typeStr_named_ne_empty env n q s s' tx h
@@ -143,9 +140,9 @@ theorem single_result (env : Env) (r : Result) (t : AType) (st st' : St) (tx : S
     (hts : typeStr env t st = .ok (tx, st')) (hne : tx ≠ "") :
     createResultString env [r] st
       = .ok (" -> " ++ escapeKeyword (convertName r.name env.safe) ++ ": " ++ tx, st') := by
-  have hn : ∀ q ∈ [r], Spec.isNoneResult q = false := by
-    intro q hq
-    rw [List.mem_singleton.1 hq, isNoneResult_of_some ht, hnn]
+  have hn : Spec.onlyNoneResult [r] = false := by
+    simp only [Spec.onlyNoneResult]
+    rw [isNoneResult_of_some ht, hnn]
   have hr := Spec.ResultsRendered.shown (name := Spec.resultName env.safe) ht hts hne (.nil st')
   rw [((result_string_cases env [r] st st' _ hn hr).2.1 _ rfl)]
   simp [Spec.resultName, String.append_assoc]
@@ -158,6 +155,137 @@ theorem results_deterministic (env : Env) (rs : List Result) (st s₁ s₂ : St)
     t₁ = t₂ ∧ s₁ = s₂ :=
   resultsRendered_unique h₁ h₂
 
+/-! ### a `None` result among several -/
+
+/-- what the type of a `None` result renders as (`isNoneNamed` looks at the qualified name only, the
+    renderer looks the *name* up in the builtin table): the table entry of the name if it has one —
+    `None` ↦ `Nothing?` —, otherwise the keyword-escaped name (an empty name is an `IndexError`, a
+    name starting with `_` leaves the marker "internal class as type"); the state is otherwise
+    unchanged, nothing is imported. -/
+theorem none_result_type_text (env : Env) (n : String) (s : St) :
+    typeStr env (.named n "builtins.None") s =
+      match builtinName n with
+      | some b => .ok (b, s)
+      | none =>
+        match n.toList with
+        | [] => .error .indexError
+        | c :: _ => .ok (escapeKeyword n,
+            if (c == '_' && !s.imports.contains "builtins.None") = true
+            then { s with todos := insertSet "internal class as type" s.todos } else s) :=
+  pp_typeStr_noneNamed env n s
+
+/-- `None` as the analyser produces it renders as `Nothing?` in every state, leaving it unchanged -/
+theorem none_renders_nothing (env : Env) (s : St) :
+    typeStr env (.named "None" "builtins.None") s = .ok ("Nothing?", s) :=
+  pp_typeStr_None env s
+
+/-- (6, general form for any class-typed result at any position, hence for a `None` result)
+    `ResultsRendered` on `pre ++ r :: post` with `r` of a class / builtin type `t`: `pre` is rendered,
+    then `t` (to a non-empty text `tx`), then `post`, the states threaded; the rendered list is the
+    texts of `pre`, then `name: tx`, then the texts of `post`. -/
+theorem named_result_is_rendered (env : Env) (pre post : List Result) (r : Result) (n q : String)
+    (st st' : St) (texts : List String) (ht : r.type = some (.named n q)) :
+    Spec.ResultsRendered (typeStr env) (Spec.resultName env.safe) (pre ++ r :: post) st texts st' ↔
+      ∃ t₁ s₁ tx s₂ t₂,
+        Spec.ResultsRendered (typeStr env) (Spec.resultName env.safe) pre st t₁ s₁ ∧
+        typeStr env (.named n q) s₁ = .ok (tx, s₂) ∧
+        Spec.ResultsRendered (typeStr env) (Spec.resultName env.safe) post s₂ t₂ st' ∧
+        texts = t₁ ++ (Spec.resultName env.safe r ++ ": " ++ tx) :: t₂ := by
+  rw [pp_resultsRendered_append_iff]
+  constructor
+  · rintro ⟨t₁, s₁, t₂, h1, h2, rfl⟩
+    obtain ⟨tx, s₂, rest, h3, h4, rfl⟩ :=
+      (pp_resultsRendered_cons_shown_iff ht (named_never_empty env n q)).1 h2
+    exact ⟨t₁, s₁, tx, s₂, rest, h1, h3, h4, rfl⟩
+  · rintro ⟨t₁, s₁, tx, s₂, t₂, h1, h2, h3, rfl⟩
+    exact ⟨t₁, s₁, _, h1,
+      (pp_resultsRendered_cons_shown_iff ht (named_never_empty env n q)).2 ⟨tx, s₂, t₂, h2, h3, rfl⟩, rfl⟩
+
+/-- (NEW, general form) A `None` result among several is shown.  `r` a `None` result in the sense of
+    `Spec.isNoneResult` (type `t` with `isNoneNamed t`, i.e. a class with qualified name
+    `builtins.None`), at least one other result: `createResultString` succeeds exactly when `pre`,
+    the type of `r` and `post` render in that order; the text is the result list
+    `texts(pre) ++ [name(r): tx] ++ texts(post)` with `tx` the (non-empty) rendering of `t`
+    (`none_result_type_text`), and — the list not being empty — no marker is added. -/
+theorem none_among_several_is_shown_general (env : Env) (pre post : List Result) (r : Result) (t : AType)
+    (st st' : St) (text : String)
+    (ht : r.type = some t) (hnn : isNoneNamed t = true) (hne : pre ++ post ≠ []) :
+    createResultString env (pre ++ r :: post) st = .ok (text, st') ↔
+      ∃ t₁ s₁ tx s₂ t₂,
+        Spec.ResultsRendered (typeStr env) (Spec.resultName env.safe) pre st t₁ s₁ ∧
+        typeStr env t s₁ = .ok (tx, s₂) ∧ tx ≠ "" ∧
+        Spec.ResultsRendered (typeStr env) (Spec.resultName env.safe) post s₂ t₂ st' ∧
+        text = Spec.resultListText (t₁ ++ (Spec.resultName env.safe r ++ ": " ++ tx) :: t₂) := by
+  obtain ⟨n, rfl⟩ := (pp_isNoneNamed_iff t).1 hnn
+  have hlen : (pre ++ r :: post).length ≠ 1 := by
+    intro h
+    apply hne
+    simp only [List.length_append, List.length_cons] at h
+    have h1 : pre.length = 0 := by omega
+    have h2 : post.length = 0 := by omega
+    rw [List.length_eq_zero_iff.1 h1, List.length_eq_zero_iff.1 h2]
+    rfl
+  rw [result_string_form env _ st st' text (pp_onlyNoneResult_of_length hlen)]
+  constructor
+  · rintro ⟨texts, s, hr, rfl, rfl⟩
+    obtain ⟨t₁, s₁, tx, s₂, t₂, h1, h2, h3, rfl⟩ := (named_result_is_rendered env pre post r n _ st s texts ht).1 hr
+    refine ⟨t₁, s₁, tx, s₂, t₂, h1, h2, named_never_empty env n _ _ _ _ h2, ?_, rfl⟩
+    simpa using h3
+  · rintro ⟨t₁, s₁, tx, s₂, t₂, h1, h2, _, h3, rfl⟩
+    refine ⟨_, st', (named_result_is_rendered env pre post r n _ st st' _ ht).2 ⟨t₁, s₁, tx, s₂, t₂, h1, h2, h3, rfl⟩,
+      rfl, ?_⟩
+    simp
+
+/-- (NEW) A `None` result among several is shown as `name: Nothing?`.  `r` with the type `None` as the
+    analyser produces it (name `None`, qualified name `builtins.None`), at least one other result:
+    `createResultString` succeeds exactly when `pre` renders from `st` to some `s₁` and `post` from
+    `s₁` to the final state (rendering `None` neither fails nor touches the state); the text is the
+    result list `texts(pre) ++ [name(r): Nothing?] ++ texts(post)`; no marker is added. -/
+theorem none_among_several_is_shown (env : Env) (pre post : List Result) (r : Result)
+    (st st' : St) (text : String)
+    (ht : r.type = some (.named "None" "builtins.None")) (hne : pre ++ post ≠ []) :
+    createResultString env (pre ++ r :: post) st = .ok (text, st') ↔
+      ∃ t₁ s₁ t₂,
+        Spec.ResultsRendered (typeStr env) (Spec.resultName env.safe) pre st t₁ s₁ ∧
+        Spec.ResultsRendered (typeStr env) (Spec.resultName env.safe) post s₁ t₂ st' ∧
+        text = Spec.resultListText (t₁ ++ (Spec.resultName env.safe r ++ ": Nothing?") :: t₂) := by
+  rw [none_among_several_is_shown_general env pre post r _ st st' text ht rfl hne]
+  constructor
+  · rintro ⟨t₁, s₁, tx, s₂, t₂, h1, h2, _, h3, rfl⟩
+    rw [none_renders_nothing] at h2
+    cases h2
+    exact ⟨t₁, s₁, t₂, h1, h3, by rw [pp_append_nothing]⟩
+  · rintro ⟨t₁, s₁, t₂, h1, h3, rfl⟩
+    exact ⟨t₁, s₁, "Nothing?", s₁, t₂, h1, none_renders_nothing env s₁, by decide, h3, by rw [pp_append_nothing]⟩
+
+/-- (NEW, position) in the rendered list of `pre ++ r :: post`, `r : None` stands right after the
+    rendered results of `pre` — at index `t₁.length ≤ pre.length` — and the rendered results of `pre`
+    stand before it unchanged. -/
+theorem none_result_position (env : Env) (pre post : List Result) (r : Result)
+    (st s₁ st' : St) (t₁ texts : List String)
+    (ht : r.type = some (.named "None" "builtins.None"))
+    (hpre : Spec.ResultsRendered (typeStr env) (Spec.resultName env.safe) pre st t₁ s₁)
+    (hr : Spec.ResultsRendered (typeStr env) (Spec.resultName env.safe) (pre ++ r :: post) st texts st') :
+    texts[t₁.length]? = some (Spec.resultName env.safe r ++ ": Nothing?") ∧
+    texts.take t₁.length = t₁ ∧ t₁.length ≤ pre.length ∧
+    ∃ t₂, Spec.ResultsRendered (typeStr env) (Spec.resultName env.safe) post s₁ t₂ st' ∧
+      texts.drop (t₁.length + 1) = t₂ := by
+  obtain ⟨t₁', s₁', tx, s₂, t₂, h1, h2, h3, rfl⟩ := (named_result_is_rendered env pre post r _ _ st st' texts ht).1 hr
+  obtain ⟨rfl, rfl⟩ := resultsRendered_unique hpre h1
+  rw [none_renders_nothing] at h2
+  cases h2
+  refine ⟨by simp [pp_append_nothing], by simp, resultsRendered_length_le hpre, t₂, h3, by simp⟩
+
+/-- (NEW, contrast with the behaviour before the repair) with a `None` result among several the
+    result list is never hidden: the text is not empty -/
+theorem none_among_several_has_arrow (env : Env) (pre post : List Result) (r : Result) (t : AType)
+    (st st' : St) (text : String)
+    (ht : r.type = some t) (hnn : isNoneNamed t = true) (hne : pre ++ post ≠ [])
+    (h : createResultString env (pre ++ r :: post) st = .ok (text, st')) : text ≠ "" := by
+  obtain ⟨t₁, s₁, tx, s₂, t₂, _, _, _, _, rfl⟩ :=
+    (none_among_several_is_shown_general env pre post r t st st' text ht hnn hne).1 h
+  exact pp_resultListText_ne_empty (by simp)
+
 /-- (7) No results at all (neither annotation nor inferable return): no arrow, and the marker
     "result without type" is pending for the declaration. -/
 theorem no_results_no_arrow (env : Env) (st : St) :
@@ -167,13 +295,19 @@ theorem no_results_no_arrow (env : Env) (st : St) :
 /-- (7, slightly more) the same when the API lists results but none of them has a type -/
 theorem untyped_results_no_arrow (env : Env) (rs : List Result) (st : St) (h : ∀ r ∈ rs, r.type = none) :
     createResultString env rs st = .ok ("", { st with todos := insertSet "result without type" st.todos }) := by
-  have hn : ∀ r ∈ rs, Spec.isNoneResult r = false := fun r hr => isNoneResult_of_none (h r hr)
+  have hn : Spec.onlyNoneResult rs = false := by
+    cases hb : Spec.onlyNoneResult rs with
+    | false => rfl
+    | true =>
+      obtain ⟨r, t, rfl, ht, _⟩ := (pp_onlyNoneResult_iff rs).1 hb
+      rw [h r List.mem_cons_self] at ht
+      cases ht
   have hr : Spec.ResultsRendered (typeStr env) (Spec.resultName env.safe) rs st [] st := by
+    clear hn
     induction rs with
     | nil => exact .nil st
     | cons r rs ih =>
-      exact .untyped (h r List.mem_cons_self)
-        (ih (fun q hq => h q (List.mem_cons_of_mem _ hq)) (fun q hq => hn q (List.mem_cons_of_mem _ hq)))
+      exact .untyped (h r List.mem_cons_self) (ih (fun q hq => h q (List.mem_cons_of_mem _ hq)))
   exact (result_string_cases env rs st st [] hn hr).1 rfl
 
 /-! ### Non-vacuity and boundary cases -/
@@ -188,6 +322,9 @@ private def res (name : String) (t : Option AType) : Result := { id := "m/f/" ++
 /-- text and pending markers of `createResultString` on the empty state -/
 private def run (rs : List Result) : Option (String × List String) :=
   (createResultString env0 rs {}).toOption.map (fun r => (r.1, r.2.todos))
+/-- the same with the naming convention switched off (Python names kept) -/
+private def runPy (rs : List Result) : Option (String × List String) :=
+  (createResultString { env0 with safe := false } rs {}).toOption.map (fun r => (r.1, r.2.todos))
 
 /-- one result: `-> int` -/
 example : run [res "result_1" (some tInt)] = some (" -> result1: Int", []) := by decide
@@ -196,27 +333,45 @@ example : run [res "result_1" (some tInt)] = some (" -> result1: Int", []) := by
 example : run [res "result_1" (some tInt), res "in" (some tStr), res "x" none, res "e" (some (.union [])),
       res "l" (some (.list [tInt, tStr]))]
     = some (" -> (result1: Int, `in`: String, l: List<Int, String>)", ["List"]) := by decide
-/-- hypothesis of (6) on that list -/
-example : ∀ r ∈ [res "result_1" (some tInt), res "in" (some tStr), res "x" none, res "e" (some (.union [])),
-      res "l" (some (.list [tInt, tStr]))], Spec.isNoneResult r = false := by decide
+/-- hypothesis of `result_string_form` on that list -/
+example : Spec.onlyNoneResult [res "result_1" (some tInt), res "in" (some tStr), res "x" none,
+      res "e" (some (.union [])), res "l" (some (.list [tInt, tStr]))] = false := by decide
 /-- `-> None` -/
-example : Spec.isNoneResult (res "result_1" (some tNone)) = true := by decide
+example : Spec.onlyNoneResult [res "result_1" (some tNone)] = true := by decide
 example : run [res "result_1" (some tNone)] = some ("", []) := by decide
-/-- a `None` result after others: everything suppressed, but the tuple before it has left its marker -/
+/-- a `None` result among several is shown (it used to hide the whole list): `-> tuple[int, None]` -/
+example : runPy [res "result_1" (some tInt), res "result_2" (some tNone)]
+    = some (" -> (result_1: Int, result_2: Nothing?)", []) := by decide
+example : run [res "result_1" (some tInt), res "result_2" (some tNone)]
+    = some (" -> (result1: Int, result2: Nothing?)", []) := by decide
+example : Spec.onlyNoneResult [res "result_1" (some tInt), res "result_2" (some tNone)] = false := by decide
+/-- … in first, middle and last position, the others keep their place; markers of the others pending -/
 example : run [res "result_1" (some (.tuple [tInt])), res "r" (some tNone), res "q" (some tInt)]
-    = some ("", ["no tuple support"]) := by decide
-example : (Spec.resultsBeforeNone
-      [res "result_1" (some (.tuple [tInt])), res "r" (some tNone), res "q" (some tInt)]).map (·.name)
-    = ["result_1"] := by decide
+    = some (" -> (result1: Tuple<Int>, r: Nothing?, q: Int)", ["no tuple support"]) := by decide
+example : run [res "r" (some tNone), res "q" (some tInt)] = some (" -> (r: Nothing?, q: Int)", []) := by decide
+/-- … also when all the others are left out: one result, no parentheses, no "result without type" -/
+example : run [res "x" none, res "r" (some tNone)] = some (" -> r: Nothing?", []) := by decide
+example : run [res "r" (some tNone), res "e" (some (.union []))] = some (" -> r: Nothing?", []) := by decide
+/-- … and two of them are two results -/
+example : run [res "a" (some tNone), res "b" (some tNone)] = some (" -> (a: Nothing?, b: Nothing?)", []) := by decide
 /-- no result / only untyped results / only empty renderings: no arrow, marker pending -/
 example : run [] = some ("", ["result without type"]) := by decide
 example : run [res "x" none] = some ("", ["result without type"]) := by decide
 example : run [res "x" (some (.union []))] = some ("", ["result without type"]) := by decide
-/-- failure before the `None` result propagates (`none_result_prefix_error`); after it, it is never reached -/
+/-- a renderer failure on any result is a failure of the whole — before and (new) after a `None` result;
+    only a list that is a single `None` result is never rendered -/
 example : run [res "x" (some (.enum ["a"])), res "r" (some tNone)] = none := by decide
-example : run [res "r" (some tNone), res "x" (some (.enum ["a"]))] = some ("", []) := by decide
-/-- the `None` test is on the qualified name: a class that happens to be called `None` is a result -/
+example : run [res "r" (some tNone), res "x" (some (.enum ["a"]))] = none := by decide
+/-- the `None` test is on the qualified name: a class that happens to be called `None` is a result … -/
 example : run [res "r" (some (.named "None" "mymod.None"))] = some (" -> r: Nothing?", []) := by decide
+/-- … and (`none_result_type_text`) the text of a `None` result is decided by the *name*: these two have
+    the qualified name `builtins.None`, so alone they give no results, among several they are shown
+    under the table entry of their name, or under the name itself -/
+example : run [res "r" (some (.named "int" "builtins.None"))] = some ("", []) := by decide
+example : run [res "q" (some tInt), res "r" (some (.named "int" "builtins.None")),
+      res "s" (some (.named "val" "builtins.None")), res "t" (some (.named "_N" "builtins.None"))]
+    = some (" -> (q: Int, r: Int, s: `val`, t: _N)", ["internal class as type"]) := by decide
+example : run [res "q" (some tInt), res "r" (some (.named "" "builtins.None"))] = none := by decide
 
 end Examples
 
